@@ -337,6 +337,21 @@ func (b *slowBody) Read(p []byte) (int, error) {
 	return n, nil
 }
 
+// serveRecovering runs the handler as net/http's connection loop does: a panic of the handler
+// is recovered (returned as text), not propagated.
+func serveRecovering(h http.Handler, rec *httptest.ResponseRecorder, req *http.Request) (msg string) {
+	defer func() {
+		if r := recover(); r != nil {
+			msg = fmt.Sprint(r)
+			if msg == "" {
+				msg = "panic"
+			}
+		}
+	}()
+	h.ServeHTTP(rec, req)
+	return ""
+}
+
 func (e *Engine) do(h http.Handler, method, path string, browser bool, body string, pause ...time.Duration) resp {
 	var rd io.Reader
 	if body != "-" {
@@ -352,7 +367,11 @@ func (e *Engine) do(h http.Handler, method, path string, browser bool, body stri
 		req.Header.Set("User-Agent", "verif-harness")
 	}
 	rec := httptest.NewRecorder()
-	h.ServeHTTP(rec, req)
+	if msg := serveRecovering(h, rec, req); msg != "" {
+		// (net/http recovers a handler's panic per connection: the server lives on, but this
+		// request - and every later one that runs into the same state - gets no answer)
+		return resp{status: -1, canon: "PANIC", errMsg: msg}
+	}
 	out := resp{status: rec.Code, raw: rec.Body.String()}
 	v, ok := decodeAny(rec.Body.Bytes())
 	segs := strings.Split(strings.Trim(path, "/"), "/")
